@@ -231,10 +231,13 @@ def generated_hosts(rng, b, n):
     aad = b.aad
     profs = [p for p in matrix.top_profiles(aad) if not p.endswith(".apparmor.d")]
     out = []
+    hot = rng.sample(profs, 8)        # a few targets shared by many generated directives, with different transitions
     for i in range(n):
-        kind = rng.choice(["stack", "stackX", "exec", "execU"])
+        kind = rng.choice(["stack", "stackX", "exec", "execU", "execU"])
         k = rng.randint(1, 5)
         args = rng.sample(profs, k)
+        if kind.startswith("exec") and rng.random() < 0.7:
+            args = rng.sample(hot, rng.randint(1, 3))
         if kind == "stack":
             line = "  #aa:stack " + " ".join(args)
         elif kind == "stackX":
